@@ -18,7 +18,8 @@ from lib.common import cps
 
 PROP = 'C06'
 LEVEL = 'proof'
-PROPS_MODULES = ['RTV.Props.C06', 'RTV.Props.C06Front']
+PROPS_MODULES = ['RTV.Props.C06', 'RTV.Props.C06Front', 'RTV.Props.C06FrontX', 'RTV.Props.C06FrontEs',
+                 'RTV.Props.C06FrontFr', 'RTV.Props.C06FrontPt', 'RTV.Props.C06FrontDe']
 GEN = ['chartables', 'dtmaps', 'datewords', 'dateregex', 'regexes']
 REQUIRED_THEOREMS = ['abs_date', 'abs_date_reference_independent', 'two_digit_year', 'two_digit_year_gap',
                      'two_digit_year_witness', 'invalid_date_not_resolved', 'pivots_sane', 'ymd_shape',
@@ -32,7 +33,14 @@ REQUIRED_THEOREMS = ['abs_date', 'abs_date_reference_independent', 'two_digit_ye
                      'day_words_de', 'day_words_nl', 'day_words_zh', 'month_words_cover', 'abs_date_month_word',
                      'abs_date_zh_words',
                      'front_groups_en', 'front_decodes', 'front_abs_date', 'front_abs_date_engine', 'retables_ascii',
-                     'token_tables', 'layouts_have_facts', 'front_day32_rejected']
+                     'token_tables', 'layouts_have_facts', 'front_day32_rejected',
+                     'retables_latin', 'front_abs_date_gen', 'front_abs_date_es', 'front_abs_date_engine_es', 'front_abs_date_esmx',
+                     'token_tables_es', 'layouts_have_facts_es', 'esmx_same', 'front_day_first_es', 'front_day32_rejected_es',
+                     'front_abs_date_fr', 'front_abs_date_fr_day1', 'front_abs_date_engine_fr', 'token_tables_fr', 'layouts_have_facts_fr',
+                     'front_day_first_fr', 'front_2er_groups_fr', 'day_2er_no_key_fr',
+                     'front_abs_date_pt', 'front_abs_date_engine_pt', 'token_tables_pt', 'layouts_have_facts_pt', 'front_day_first_pt',
+                     'front_abs_date_de', 'front_abs_date_engine_de', 'token_tables_de', 'layouts_have_facts_de', 'front_day_first_de',
+                     'front_day_dot_groups_de', 'front_month13_rejected_de']
 RULE = ('unit: format_date/luis_date on all 73,049 dates 1900..2099 + out-of-range years; generate_dates on a grid '
         '(years incl. 1,4,100,1900,2000,2100,9999 x months 0..13 x days 0,1,28..32 x no_year x references); match_to_date on '
         'every match of every date regex of the 8 BaseDateParser cultures over strings built from the contract layouts, '
@@ -45,9 +53,10 @@ RULE = ('unit: format_date/luis_date on all 73,049 dates 1900..2099 + out-of-ran
         'word contract: every word of contracts/C06words.json (all full month names, abbreviations, ordinal day spellings, '
         '汉字 numerals; 9 cultures) against the tree\'s month_of_year / day_of_month; a violated word is put into the culture\'s '
         'month-name layouts and asked of the pipeline')
-ASSUMPTIONS = ['English: text -> groups is modelled and proved (Props/C06Front: parse_basic_regex_match on the regenerated date regexes, '
-               'every contract layout x every date 1900-2099; regex engine = backtracking matcher validated against `regex` by lib/datefrontcorr); '
-               'other cultures: group values are inputs of the model; the date EXTRACTOR is not modelled (pipeline level only)',
+ASSUMPTIONS = ['English, es-es, es-mx, fr-fr, pt-br, de-de: text -> groups is modelled and proved (Props/C06Front, C06Front<Cul>: '
+               'parse_basic_regex_match on the regenerated date regexes of the culture, every contract layout x every date 1900-2099; regex '
+               'engine = backtracking matcher validated against `regex` by lib/datefrontcorr); it-it, nl-nl (some date regexes outside the '
+               'translator) and zh-cn: group values are inputs of the model; the date EXTRACTOR is not modelled (pipeline level only)',
                'get_year_from_text (written-out years) enters the model as a parameter',
                'ChineseDateParser.match_to_date is modelled (unit correspondence on ~6k real matches); its 汉字-year conversion '
                '(convert_chinese_year_to_number, which runs the number recogniser) is an input of the model',
@@ -680,6 +689,7 @@ def correspond(ctx):
     replay_witnesses(ctx, T)
     word_contract(ctx, T, contract)
     datefrontcorr.unit(ctx, T, contract, render); datefrontcorr.grid(ctx, T, contract, render, judge)
+    datefrontcorr.unit_cultures(ctx, T, contract, render); datefrontcorr.grid_cultures(ctx, T, contract, render, judge)
     pipeline(ctx, contract)
     shared_text_histories(ctx, contract)
 
@@ -690,6 +700,7 @@ def search(ctx, proof_problems):
     T = dtres.Tree()
     # front-end obligations (Props/C06Front: regenerated date regexes / layouts): the Lean front end over layout x date grid
     datefrontcorr.grid(ctx, T, load_contract(), render, judge, full=True)
+    datefrontcorr.grid_cultures(ctx, T, load_contract(), render, judge, full=True)
     dp = T.date_parser('en-us')
     moy, dom = dp.config.month_of_year, dp.config.day_of_month
     names = ['january', 'february', 'march', 'april', 'may', 'june', 'july', 'august', 'september', 'october', 'november',
